@@ -45,6 +45,11 @@ class KernelReturn(Exception):
     pass
 
 
+class KernelEntered(Exception):
+    """Raised when a safe wrapper reaches the call of its unsafe kernel."""
+    pass
+
+
 # ------------------------------------------------------------------ abstract values
 
 SIZES = {"u8": 1, "i8": 1, "u16": 2, "i16": 2, "u32": 4, "i32": 4, "f32": 4, "__m256i": 32, "__m128i": 16,
@@ -107,6 +112,9 @@ class Matrix:
 
     def resize(self, n):
         self.rows_ = int(n)
+
+    def as_ref(self):
+        return self
 
     def __getitem__(self, i):
         if isinstance(i, int):
@@ -184,6 +192,9 @@ class Striped:
     def wrap(self):
         return self.wrap_
 
+    def as_ref(self):
+        return self
+
 
 class Scores:
     def __init__(self, matrix, max_index=0):
@@ -199,6 +210,12 @@ class Scores:
 
     def max_index(self):
         return self.mi
+
+    def resize(self, rows, *_):
+        self.m.resize(rows)
+
+    def as_ref(self):
+        return self
 
 
 # intrinsic -> (is_write, width, alignment)
@@ -525,6 +542,9 @@ class Interp:
     @staticmethod
     def classify(s):
         """Statement text -> plan tuple (computed once per distinct statement)."""
+        m = re.match(r"^(?:return\s+)?(\w+)(?:::<[^>]*>)?\(.*\)$", s)
+        if m and m.group(1) in KERNEL_FNS:
+            return ("enter", m.group(1))
         if s.startswith("return"):
             return ("return",)
         if s.startswith("panic!"):
@@ -553,6 +573,9 @@ class Interp:
             has_mem = bool(MEM_RX.search(rhs))
             opaque = has_mem or (bool(REG_RX.search(rhs)) and not POINTERISH.search(rhs))
             return ("assign", name, op, rhs, has_mem, opaque, bool(POINTERISH.search(rhs)), s)
+        m = re.match(r"^(?:return\s+)?(\w+)(?:::<[^>]*>)?\(.*\)$", s)
+        if m and m.group(1) in KERNEL_FNS:
+            return ("enter", m.group(1))
         if MEM_RX.search(s):
             return ("mem", s)
         m = re.match(r"^(\w+)\.(resize|reserve)\((.*)\)$", s)
@@ -619,11 +642,13 @@ class Interp:
             self.env[name] = LocalArray(n, esz)
         elif kind == "garray":
             self.env[plan[1]] = LocalArray(self.consts.get("C", 32), plan[2])
+        elif kind == "enter":
+            raise KernelEntered(plan[1])
         elif kind == "resize":
             _, name, meth, arg, text = plan
-            if isinstance(self.env.get(name), Matrix):
+            if isinstance(self.env.get(name), (Matrix, Scores)):
                 if meth == "resize":
-                    self.env[name].resize(self.ev(arg))
+                    self.env[name].resize(self.ev(split_args(arg)[0]))
             elif POINTERISH.search(text):
                 raise Unsupported("statement with pointer operations not interpreted: `%s`" % text)
         elif kind == "error":
@@ -701,6 +726,36 @@ KERNELS = {
 }
 
 
+KERNEL_FNS = set(v[1] for v in KERNELS.values())
+
+# safe wrappers whose guards are interpreted from the source (the NEON ones have no dynamic tie)
+WRAPPERS = {
+    "score_f32_neon": ("pli/platform/neon.rs", "score_f32_rows_into", env_score(4)),
+    "score_u8_neon": ("pli/platform/neon.rs", "score_u8_rows_into", env_score(1)),
+}
+
+
+def wrapper_outcome(kernel, p, repo=None, cache={}):
+    """What the safe wrapper in front of `kernel` does for the parameters p according to its source:
+    2 = reaches the kernel call, 1 = returns early, 0 = panics."""
+    f, fn, mkenv = WRAPPERS[kernel]
+    key = (repo or REPO, f, fn)
+    if key not in cache:
+        cache[key] = load_kernel(f, fn, repo)
+    env = mkenv(p)
+    env["scores"] = Scores(Matrix(B_DST, 0, p["dst"], env["scores"].m.esz, p.get("C", 32)))
+    it = Interp({"K": p.get("K", 5), "C": p.get("C", 32)}, env)
+    try:
+        it.run(cache[key])
+    except KernelEntered:
+        return 2
+    except KernelReturn:
+        return 1
+    except KernelPanic:
+        return 0
+    raise Unsupported("wrapper %s ends without calling its kernel" % fn)
+
+
 # ------------------------------------------------------------------ parameter grid
 
 def stride(es, C):
@@ -746,8 +801,9 @@ def grid(tier="quick"):
                 cases.append(("score_f32_avx2_gather", dict(base, K=5, pst=stride(4, 5), dst=32)))
                 cases.append(("score_u8_avx2_shuffle", dict(base, K=5, pst=stride(1, 5), dst=32)))
     # NEON: Arm layout (rows 16-byte aligned).  `unranged=0`: the range ends inside the matrix;
-    # `unranged=1`: a call Neon::score_*_rows_into lets through (wrap >= M - 1, L >= M, non-empty range)
-    # although the range reaches into the look-ahead rows (finding F26: no row-range check in neon.rs)
+    # `unranged=1`: the range reaches into the look-ahead rows with wrap >= M - 1, L >= M: the calls that the
+    # NEON wrappers let through before commit 9cd9b52 (finding F26, witness 64 symbols / C=16 / M=3 / rows 0..6)
+    # and must now refuse (wrapper outcome 0 in the source and in the model)
     for L in Ls:
         cases.append(("encode_into_neon", dict(L=L, K=5)))
     for (K, L, M, a, b) in sc[:6]:
@@ -761,6 +817,15 @@ def grid(tier="quick"):
                 cases.append(("score_f32_neon", dict(base, a=lo, b=hi, unranged=unr, K=K, pst=stride16(4, K), dst=stride16(4, C))))
                 cases.append(("score_f32_neon", dict(base, a=lo, b=hi, unranged=unr, K=21, pst=stride16(4, 21), dst=stride16(4, C))))
                 cases.append(("score_u8_neon", dict(base, a=lo, b=hi, unranged=unr, K=K, pst=stride16(1, K), dst=stride16(1, C))))
+    # guards of the NEON wrappers: wrap too small (panic), motif longer than the sequence / empty and inverted
+    # ranges (early return).  (M = 0 is left out: `pssm.rows() - 1` underflows in usize, which this interpreter,
+    # computing in unbounded integers, does not model; the Coq wrapper has Panic 2 for it.)
+    for (L, M, wrap, lo, hi) in ((64, 3, 1, 0, 2), (64, 3, 0, 0, 2), (2, 3, 2, 0, 1), (64, 3, 2, 2, 2), (64, 3, 2, 3, 1),
+                                 (64, 1, 0, 0, 4)):
+        R = (L + 15) // 16
+        base = dict(L=L, M=M, SR=R + wrap, wrap=wrap, C=16, sst=16, a=lo, b=hi, unranged=0, K=5)
+        cases.append(("score_f32_neon", dict(base, pst=8, dst=16)))
+        cases.append(("score_u8_neon", dict(base, pst=16, dst=16)))
     for rows in (1, 2, 3, 7, 32, 33, 100):
         cases.append(("argmax_f32_avx2", dict(rows=rows, st=32, maxidx=rows * 32)))
         cases.append(("max_f32_avx2", dict(rows=rows, st=32)))
@@ -785,7 +850,10 @@ def lines(tier="quick", repo=None):
         if kernel in bad:
             continue
         try:
-            accs = derive(kernel, p, repo)
+            if kernel in WRAPPERS:
+                p = dict(p, entered=wrapper_outcome(kernel, p, repo))
+            # (a call the wrapper does not let through has no footprint)
+            accs = derive(kernel, p, repo) if p.get("entered", 2) == 2 else []
         except KernelPanic as e:
             errors.append("%s %s: kernel panics for in-contract parameters: %s" % (kernel, p, e))
             continue
